@@ -85,6 +85,7 @@ IDENTITIES = {
     # name: (name, version, answers kitty graphics query)
     "kitty": ("kitty", "0.28.1", True),
     "kitty-old": ("kitty", "0.20.0", True),
+    "kitty-0250": ("kitty", "0.25.0", True),  # boundary of the per-frame clearing workaround
     "konsole": ("konsole", "22.12.3", True),
     "wezterm": ("wezterm", "20230712", False),
     "iterm2": ("iterm2", "3.4.19", False),
